@@ -55,7 +55,8 @@ class P(Prop):
     RULE = ("&f + &g and &f - &g over Piecewise<IntOfLogPoly4> (the only piece type with reference operators): operand pairs "
             "of 1..8 (thorough ..40) pieces - independent, interleaved, nested, identical, duplicate, shared ends, one single "
             "piece; malformed stream: NaN ends, empty operands (both sides must panic). Each Rust copy (Add, Sub) has its own "
-            "stream. non-trivial = both operands >= 2 pieces and result has >= 3 pieces; distinct by full input")
+            "stream. non-trivial = both operands >= 2 pieces and result has >= 3 pieces; distinct by full input"
+            " Also: pw_merge_eval - (f+-g)(x), f(x), g(x) all through the crate on constant staircases whose result has more than 64 pieces and on pieces whose log-coefficients cancel; exact ties at breakpoints beyond f64::MAX/2.")
     TRUSTED = ["skeleton PwModel.merge (one transcription) tied to BOTH Rust copies (Add and Sub impls) by separate correspondence streams"]
     ASSUMPTIONS = ["partial_cmp returns None exactly on NaN", "usize arithmetic: len()-1 on an empty operand panics (debug) or indexes out of bounds (release)"]
 
@@ -88,6 +89,28 @@ class P(Prop):
                 pts = sorted(set(e1 + e2))
                 xs = [pts[0] * 0.5] + pts + [p_ + 0.25 for p_ in pts] + [pts[-1] + 5.0]
                 out.append(dict(op="pw_merge_eval", sub=sub, f=f, g=g, xs=[C.bits(x) for x in xs], meta={"class": "merge_eval/staircase"}))
+        # pieces whose four log-coefficients cancel exactly in the sum / difference while the tail coefficient u does not: the value is
+        # still f(x) +- g(x) (within the rounding of the evaluations), it is not the bare constant
+        for _ in range(8 if tier == "quick" else 80):
+            sub = rng.random() < 0.5
+            n1, n2 = rng.randint(1, 5), rng.randint(1, 5)
+            e1 = [float(i + 1) for i in range(n1)]
+            e2 = [i + 1.5 for i in range(n2)]
+            cf = [rng.choice([1.0, -2.0, 0.5, 3.0]) for _ in range(4)]
+            f = [[C.bits(e), C.bits(float(5 + i))] + [C.bits(c) for c in cf] + [C.bits(rng.choice([1.0, 2.0, -4.0]))] for i, e in enumerate(e1)]
+            g = [[C.bits(e), C.bits(float(2 * i))] + [C.bits(c if sub else -c) for c in cf] + [C.bits(rng.choice([1.0, 0.5, 8.0]))] for i, e in enumerate(e2)]
+            pts = sorted(set(e1 + e2))
+            xs = [0.5, 0.75] + pts + [p_ + 0.25 for p_ in pts] + [pts[-1] + 5.0, 30.0]
+            out.append(dict(op="pw_merge_eval", sub=sub, f=f, g=g, xs=[C.bits(x) for x in xs], approx=True, meta={"class": "merge_eval/cancelling_coeffs"}))
+        # exact ties at breakpoints beyond f64::MAX/2 (and ordinary ones): any arithmetic on the two equal ends can overflow
+        for op in ("pw_add", "pw_sub"):
+            for _ in range(3 if tier == "quick" else 30):
+                pool = [-1.7e308, -1.2e308, -9e307, -1.0, 0.0, 2.5, 9e307, 1.0e308, 1.3e308, 1.7976931348623157e308]
+                e1 = sorted(rng.sample(pool, rng.randint(2, 6)))
+                e2 = sorted(set(rng.sample(e1, rng.randint(1, len(e1))) + rng.sample(pool, 2)))
+                f = [[C.bits(e)] + q4_piece(rng) for e in e1]
+                g = [[C.bits(e)] + q4_piece(rng) for e in e2]
+                out.append(dict(op=op, f=f, g=g, meta={"class": op + "/huge_ties"}))
         # malformed stream
         for op in ("pw_add", "pw_sub"):
             shape, f, g = operand_pair(rng, 4)
@@ -117,6 +140,12 @@ class P(Prop):
                 exp = fv - gv if case.get("sub") else fv + gv
                 if exp != exp or not (C.fl(xb) > 0):
                     continue            # outside the domain of the log-integral pieces
+                if case.get("approx"):
+                    # non-constant pieces: the three evaluations round separately
+                    if not (abs(hv - exp) <= 1e-9 * (abs(fv) + abs(gv) + 1.0)):
+                        return "(f %s g)(%r) = %r but f(%r) = %r and g(%r) = %r (all evaluated by the crate; result has %d pieces)" % (
+                            "-" if case.get("sub") else "+", C.fl(xb), hv, C.fl(xb), fv, C.fl(xb), gv, h["r"][0])
+                    continue
                 if hv != exp:
                     return "(f %s g)(%r) = %r but f(%r) = %r and g(%r) = %r (all evaluated by the crate; result has %d pieces)" % (
                         "-" if case.get("sub") else "+", C.fl(xb), hv, C.fl(xb), fv, C.fl(xb), gv, h["r"][0])
